@@ -160,6 +160,7 @@ impl Searcher {
         let mut nodes_searched = 0;
         let mut best_eval = eval::Evaluation::NEG_INF;
         let mut best_mv = None;
+        let mut reported_line = false;
 
         // Mark that we've seen this state - this will help us avoid draws by repetition in winning states
         state_history.increment(game_state_hash);
@@ -289,9 +290,7 @@ impl Searcher {
                         line,
                     });
 
-                    // From here on there is a move to play, so the search may be interrupted
-                    // at any point. The first iteration always runs to completion
-                    token.arm();
+                    reported_line = true;
 
                     // The cancellation token is otherwise only polled every few thousand nodes
                     // inside of an iteration. Iterations that are cheaper than that (positions
@@ -326,6 +325,26 @@ impl Searcher {
 
                                     line
                                 },
+                            });
+
+                            reported_line = true;
+                        }
+                    }
+
+                    // Even the first iteration can be expensive enough to be interrupted
+                    // (capture sequences in messy positions). The caller still needs a move
+                    // to play, so fall back to the first legal one
+                    if !reported_line {
+                        let mut buffer = MoveGenerationBuffer::new();
+                        MoveGenerator::compute_legal_moves_into(&game_state, &mut buffer);
+                        if let Some(MoveResult(mv, _)) = buffer.legal_moves.first() {
+                            f(StatusEvent::BestMove {
+                                evaluation: evaluator.evaluate(
+                                    &game_state,
+                                    game_state.turn_to_move(),
+                                    0,
+                                ),
+                                line: vec![*mv],
                             });
                         }
                     }
@@ -965,7 +984,6 @@ pub struct SearchArtifact {
 #[derive(Clone)]
 struct CancellationToken {
     cancelled: Arc<AtomicBool>,
-    armed: Arc<AtomicBool>,
     #[cfg(weechess_verif)]
     verif_probe: Option<Arc<verif::CancelProbe>>,
 }
@@ -974,7 +992,6 @@ impl CancellationToken {
     fn new() -> (Self, Self) {
         let token = Self {
             cancelled: Arc::new(AtomicBool::new(false)),
-            armed: Arc::new(AtomicBool::new(false)),
             #[cfg(weechess_verif)]
             verif_probe: None,
         };
@@ -986,13 +1003,8 @@ impl CancellationToken {
         self.cancelled.store(true, Ordering::Relaxed);
     }
 
-    /// A cancellation only takes effect once the token has been armed
-    fn arm(&self) {
-        self.armed.store(true, Ordering::Relaxed);
-    }
-
     fn is_cancelled(&self) -> bool {
-        self.armed.load(Ordering::Relaxed) && self.cancelled.load(Ordering::Relaxed)
+        self.cancelled.load(Ordering::Relaxed)
     }
 }
 
